@@ -66,6 +66,67 @@ func (e *eofDataReader) Read(p []byte) (int, error) {
 	return n, err
 }
 
+// segReader is a host reader that GOES ON after an end of file (a terminal, a growing pipe): at each of its
+// marks (ascending offsets) a Read reports io.EOF once, the next Read continues behind the mark. A Read at
+// offset o offers sizes[o mod len(sizes)] bytes of the current segment; with eofData the last bytes of a
+// segment come together with io.EOF. Behind the last mark it is an ordinary finite source.
+type segReader struct {
+	src     []byte
+	off     int
+	marks   []int
+	used    int
+	sizes   []int
+	eofData bool
+}
+
+func (s *segReader) Read(p []byte) (int, error) {
+	if len(p) == 0 {
+		return 0, nil
+	}
+	limit := len(s.src)
+	if s.used < len(s.marks) {
+		limit = s.marks[s.used]
+	}
+	if s.off >= limit {
+		if s.used < len(s.marks) {
+			s.used++
+		}
+		return 0, io.EOF
+	}
+	n := s.sizes[s.off%len(s.sizes)]
+	if n > limit-s.off {
+		n = limit - s.off
+	}
+	if n > len(p) {
+		n = len(p)
+	}
+	if n < 1 {
+		n = 1
+	}
+	copy(p, s.src[s.off:s.off+n])
+	s.off += n
+	if s.eofData && s.off == limit {
+		if s.used < len(s.marks) {
+			s.used++
+		}
+		return n, io.EOF
+	}
+	return n, nil
+}
+
+func c19Ints(t string) []int {
+	var out []int
+	for _, w := range strings.Split(t, ",") {
+		if w == "" {
+			continue
+		}
+		n, err := strconv.Atoi(w)
+		must(err)
+		out = append(out, n)
+	}
+	return out
+}
+
 // ---------------------------------------------------------------------------
 // interpreters are reused (creating one parses bootstrap.pl); a case leaves no trace in them:
 // it restores the current input and closes the file it opened
@@ -323,6 +384,12 @@ func runC19Once(payload string) string {
 			r = &chunkReader{r: bytes.NewReader(src), n: 3}
 		case "eofd":
 			r = &eofDataReader{r: bytes.NewReader(src)}
+		case "seg":
+			sizes := c19Ints(kv["ck"])
+			if len(sizes) == 0 {
+				sizes = []int{1}
+			}
+			r = &segReader{src: src, marks: c19Ints(kv["mk"]), sizes: sizes, eofData: kv["ed"] == "1"}
 		default:
 			panic("bad reader " + rd)
 		}
@@ -596,8 +663,12 @@ func c19SkipLayout(b []byte) int {
 //   - it fails (syntax error) or reports io.EOF inside a clause: the measured read goes into the table
 //     of the case header (tab=off:bytes:kind), the model's reader follows the table.
 // Returns false if the case is outside the fragment, else the table entries.
-func c19InFragment(vm *engine.VM, src []byte, binary bool, eof string, queries [][]string, drain int, spans []c19Span) (bool, []string) {
-	idx, delivered := 0, false
+func c19InFragment(vm *engine.VM, full []byte, binary bool, eof string, queries [][]string, drain int, spans []c19Span, marks ...int) (bool, []string) {
+	idx, delivered, seg := 0, false, 0
+	src := full // the source up to the end of the current segment
+	if len(marks) > 0 {
+		src = full[:marks[0]]
+	}
 	tab := map[string]bool{}
 	// runs one conjunction; false = a read_term outside the fragment
 	query := func(q []string) bool {
@@ -618,6 +689,13 @@ func c19InFragment(vm *engine.VM, src []byte, binary bool, eof string, queries [
 				}
 				if eof == "reset" {
 					delivered = false
+					if seg < len(marks) { // the stream restarts: the next segment of a source that goes on
+						seg++
+						src = full
+						if seg < len(marks) {
+							src = full[:marks[seg]]
+						}
+					}
 				}
 			}
 			if (op == "gb" || op == "pb") != binary {
@@ -919,7 +997,11 @@ func genC19(r *rand.Rand, n int, tier string) []string {
 	defer c19Pool.Put(ci)
 	var spans []c19Span
 	emitSp := func(src []byte, rd string, binary bool, eof string, drain int, queries [][]string, spans []c19Span) {
-		ok, tab := c19InFragment(&ci.i.VM, src, binary, eof, queries, drain, spans)
+		var marks []int
+		if strings.HasPrefix(rd, "seg ") {
+			marks = c19Ints(parseKV(rd)["mk"])
+		}
+		ok, tab := c19InFragment(&ci.i.VM, src, binary, eof, queries, drain, spans, marks...)
 		if !ok {
 			return
 		}
@@ -933,8 +1015,13 @@ func genC19(r *rand.Rand, n int, tier string) []string {
 	if tier == "thorough" {
 		genC19Exhaustive(emitSp)
 	}
+	genC19SegFixed(emitSp)
 	base := len(out) // n random cases on top of the enumerated ones
 	for len(out) < base+n {
+		if r.Intn(6) == 0 {
+			genC19SegCase(r, emitSp)
+			continue
+		}
 		var src []byte
 		var bad bool
 		src, spans, bad = genC19Source(r, ci)
@@ -1001,6 +1088,121 @@ func genC19(r *rand.Rand, n int, tier string) []string {
 		}
 	}
 	return out
+}
+
+// --- sources that go on after an end of file (rd=seg), read by eof_action(reset) streams across several ends of file,
+// with end_of_stream / at_end_of_stream observed after every operation
+
+func c19SegRd(marks []int, sizes []int, ed bool) string {
+	f := func(xs []int) string {
+		ws := make([]string, len(xs))
+		for i, x := range xs {
+			ws[i] = strconv.Itoa(x)
+		}
+		return strings.Join(ws, ",")
+	}
+	e := 0
+	if ed {
+		e = 1
+	}
+	return fmt.Sprintf("seg mk=%s ck=%s ed=%d", f(marks), f(sizes), e)
+}
+
+// c19Observed: every input goal followed by end-of-stream observations
+func c19Observed(ops []string, obs func(i int) []string) []string {
+	var seq []string
+	for i, o := range ops {
+		seq = append(seq, o)
+		seq = append(seq, obs(i)...)
+	}
+	return seq
+}
+
+func c19Sep(seq []string) [][]string {
+	sep := make([][]string, len(seq))
+	for i := range seq {
+		sep[i] = []string{seq[i]}
+	}
+	return sep
+}
+
+func genC19SegCase(r *rand.Rand, emit func(src []byte, rd string, binary bool, eof string, drain int, queries [][]string, spans []c19Span)) {
+	var sb strings.Builder
+	binary := r.Intn(5) == 0
+	if r.Intn(2) == 0 && !binary {
+		for n := 1 + r.Intn(4); n > 0; n-- {
+			sb.WriteString(genC19Token(r) + "." + pick(r, []string{" ", "\n", "", " %c\n"}))
+		}
+	} else {
+		for n := 1 + r.Intn(8); n > 0; n-- {
+			sb.WriteString(pick(r, c19Chars[:12]))
+		}
+	}
+	src := []byte(sb.String())
+	var marks []int
+	for n := 1 + r.Intn(3); n > 0; n-- {
+		marks = append(marks, r.Intn(len(src)+1))
+	}
+	sort.Ints(marks)
+	var sizes []int
+	for n := 1 + r.Intn(3); n > 0; n-- {
+		sizes = append(sizes, 1+r.Intn(7))
+	}
+	eof := "reset"
+	if r.Intn(8) == 0 {
+		eof = "error"
+	}
+	in := []string{"gc", "gc", "pc", "rt", "gk"}
+	if binary {
+		in = []string{"gb", "gb", "pb"}
+	}
+	k := 3 + r.Intn(8)
+	ops := make([]string, k)
+	for i := range ops {
+		ops[i] = pick(r, in)
+	}
+	seq := c19Observed(ops, func(int) []string {
+		switch r.Intn(4) {
+		case 0:
+			return []string{"pe"}
+		case 1:
+			return []string{"ae"}
+		case 2:
+			return []string{"pe", "ae", "pp"}
+		}
+		return nil
+	})
+	rd := c19SegRd(marks, sizes, r.Intn(3) == 0)
+	emit(src, rd, binary, eof, 0, c19Sep(seq), nil)
+	emit(src, rd, binary, eof, 0, [][]string{seq}, nil)
+}
+
+// genC19SegFixed: small segmented sources with every chunk size, and sources whose second segment is larger than
+// bufio's buffer, so that the buffer runs empty in the middle of a segment right between two operations
+func genC19SegFixed(emit func(src []byte, rd string, binary bool, eof string, drain int, queries [][]string, spans []c19Span)) {
+	both := func(i int) []string { return []string{"pe", "ae"} }
+	for _, ck := range [][]int{{1}, {2}, {3}, {7}, {1, 2}} {
+		for _, ed := range []bool{false, true} {
+			rd := c19SegRd([]int{2, 4}, ck, ed)
+			seq := c19Observed([]string{"gc", "gc", "gc", "gc", "pc", "gc", "gc", "gc", "gc", "gc"}, both)
+			emit([]byte("abcde"), rd, false, "reset", 0, c19Sep(seq), nil)
+			emit([]byte("abcde"), rd, false, "reset", 0, [][]string{seq}, nil)
+			seqb := c19Observed([]string{"gb", "gb", "gb", "pb", "gb", "gb", "gb", "gb", "gb"}, both)
+			emit([]byte("abcde"), rd, true, "reset", 0, c19Sep(seqb), nil)
+			rd2 := c19SegRd([]int{3, 3, 9}, ck, ed)
+			seqt := c19Observed([]string{"rt", "rt", "rt", "pc", "rt", "rt", "rt", "gc", "rt", "rt"}, both)
+			emit([]byte("a. bc. d.\ne."), rd2, false, "reset", 0, c19Sep(seqt), nil)
+			emit([]byte("a. bc. d.\ne."), rd2, false, "error", 0, c19Sep(seqt), nil)
+		}
+	}
+	for l := 4084; l <= 4098; l++ {
+		src := []byte("x.\n%" + strings.Repeat("a", l) + "\nb.\nc.\nd.")
+		for _, ck := range [][]int{{5000}, {4096}} {
+			rd := c19SegRd([]int{3}, ck, false)
+			seq := []string{"rt", "rt", "rt", "pe", "ae", "gc", "pe", "ae", "pc", "pe", "gc", "pe", "ae", "rt", "pe", "ae", "gc", "pe", "rt", "pe", "rt"}
+			emit(src, rd, false, "reset", 0, c19Sep(seq), nil)
+		}
+	}
 }
 
 // genC19BadExhaustive: read_term on every clause that is not well-formed, ending at the last byte / followed by
